@@ -158,23 +158,26 @@ theorem buildMessage_keeps (pick : Pick) (s : State) (ticket : Nat) (tx : Tx) (s
 theorem allocStep_keeps (pick : Pick) (s : State) (op : Alloc.Op) : Keeps s (s.allocStep pick op).1 :=
   Keeps.fields rfl rfl rfl rfl
 
-theorem buildWith_keeps (pick : Pick) (s : State) (tx : Tx) (size : Nat) : Keeps s (buildWith pick s tx size) := by
+theorem buildWith_keeps (pick : Pick) (s : State) (tx : Tx) (size : Nat) (hc : s.closed = false) :
+    Keeps s (buildWith pick s tx size) := by
   unfold buildWith
   simp only
   have k0 : Keeps s ({ s with nextTicket := s.nextTicket + 1 } : State) := Keeps.fields rfl rfl rfl rfl
   split
-  · exact k0.trans (buildMessage_keeps _ _ _ _ _)
+  · rw [buildMsg_open pick (by exact hc)]
+    exact k0.trans (buildMessage_keeps _ _ _ _ _)
   · have k1 := k0.trans (allocStep_keeps pick ({ s with nextTicket := s.nextTicket + 1 } : State) (.alloc s.peer size s.nextTicket))
     split
-    · exact k1.trans (buildMessage_keeps _ _ _ _ _)
+    · rw [buildMsg_open pick (by exact hc)]
+      exact k1.trans (buildMessage_keeps _ _ _ _ _)
     · exact k1.trans (Keeps.fields rfl rfl rfl rfl)
 
-theorem build_keeps (pick : Pick) (s : State) (tx : Tx) : Keeps s (s.build pick tx) := by
+theorem build_keeps (pick : Pick) (s : State) (tx : Tx) (hc : s.closed = false) : Keeps s (s.build pick tx) := by
   rw [build_eq]; split
   · exact Keeps.refl s
-  · exact buildWith_keeps _ _ _ _
+  · exact buildWith_keeps _ _ _ _ hc
 
-theorem wake_keeps (pick : Pick) (s : State) (t : Nat) : Keeps s (s.wake pick t) := by
+theorem wake_keeps (pick : Pick) (s : State) (t : Nat) (hc : s.closed = false) : Keeps s (s.wake pick t) := by
   unfold State.wake
   split
   · exact Keeps.refl s
@@ -182,15 +185,21 @@ theorem wake_keeps (pick : Pick) (s : State) (t : Nat) : Keeps s (s.wake pick t)
     simp only
     have k0 : Keeps s ({ s with waiters := s.waiters.filter (·.ticket != w.ticket) } : State) := Keeps.fields rfl rfl rfl rfl
     split
-    · exact k0.trans (buildMessage_keeps _ _ _ _ _)
+    · rw [buildMsg_open pick (by exact hc)]
+      exact k0.trans (buildMessage_keeps _ _ _ _ _)
     · exact k0.trans (Keeps.fields rfl rfl rfl rfl)
 
+theorem Running.open_ {s : State} (h : Running s) : s.closed = false := by
+  obtain ⟨peer, maxRetries, builders, nextTopic, token, done, sender, pc, closedStreams, waiters,
+    nextTicket, topics, pubClosed, alloc, log⟩ := s
+  cases pc <;> first | rfl | exact absurd rfl h.1 | exact absurd rfl h.2
+
 /-- the steps that are not the queue goroutine's -/
-theorem caller_keeps (pick : Pick) (s : State) (a : Act) (hq : ∀ pw, a ≠ .run pw) (ha : ∀ ok, a ≠ .ack ok) :
-    Keeps s (step pick s a) ∧ Quiet s (step pick s a) := by
+theorem caller_keeps (pick : Pick) (s : State) (a : Act) (hq : ∀ pw, a ≠ .run pw) (ha : ∀ ok, a ≠ .ack ok)
+    (hc : s.closed = false) : Keeps s (step pick s a) ∧ Quiet s (step pick s a) := by
   cases a with
-  | build tx => exact ⟨build_keeps pick s tx, build_quiet pick s tx⟩
-  | wake t => exact ⟨wake_keeps pick s t, wake_quiet pick s t⟩
+  | build tx => exact ⟨build_keeps pick s tx hc, build_quiet pick s tx hc⟩
+  | wake t => exact ⟨wake_keeps pick s t hc, wake_quiet pick s t hc⟩
   | run pw => exact absurd rfl (hq pw)
   | ack ok => exact absurd rfl (ha ok)
   | shutdown => exact ⟨Keeps.fields rfl rfl rfl rfl, Quiet.ofLog [] (by simp [step]) (by simp) (by simp) rfl rfl rfl rfl⟩
@@ -201,13 +210,9 @@ theorem caller_keeps (pick : Pick) (s : State) (a : Act) (hq : ∀ pw, a ≠ .ru
 theorem caller_live (pick : Pick) {t : Nat} {s : State} (h : LiveP t s) (a : Act) (hq : ∀ pw, a ≠ .run pw) (ha : ∀ ok, a ≠ .ack ok) :
     LiveP t (step pick s a) ∧ V t (step pick s a) = V t s := by
   obtain ⟨hn, hti, hok, hrun, hp⟩ := h
-  obtain ⟨k, q⟩ := caller_keeps pick s a hq ha
-  have hj := step_J pick (Or.inr hn) a
+  obtain ⟨k, q⟩ := caller_keeps pick s a hq ha hrun.open_
   have hpc := k.pc
-  have hn' : NInv (step pick s a) := by
-    rcases hj with hf | hn'
-    · exact absurd (hf.pc.symm.trans hpc).symm hrun.2
-    · exact hn'
+  have hn' : NInv (step pick s a) := step_J pick hn a
   refine ⟨⟨hn', k.ti hti, ?_, ?_, ?_⟩, ?_⟩
   · unfold PcOK at hok ⊢; rw [hpc, k.maxRetries]; exact hok
   · unfold Running; rw [hpc]; exact hrun
